@@ -175,6 +175,9 @@ type Gen struct {
 	DocNames, DocAttrs []string
 	// FocusFn: a focus run builds most expressions around this function
 	FocusFn string
+	// StackPos: flat paths may carry a positional predicate after boolean ones
+	// (used by C04 / C05; C12's flat fragment does not allow it)
+	StackPos bool
 }
 
 func NewGen(r *Rng) *Gen {
@@ -269,9 +272,18 @@ func (g *Gen) step(depth int, first bool) *E {
 		}
 	}
 	if depth > 0 {
-		np := r.Weighted([]int{12, 5, 1})
+		np := r.Weighted([]int{10, 5, 2})
 		for i := 0; i < np; i++ {
 			s.Kids = append(s.Kids, g.Pred(depth-1))
+		}
+		if np == 2 && r.Chance(1, 2) {
+			// stacked predicates: a boolean filter followed by a positional one, or the other way round
+			b, p := g.flatBoolPred(), g.flatPosPred()
+			if r.Chance(1, 2) {
+				s.Kids = []*E{b, p}
+			} else {
+				s.Kids = []*E{p, b}
+			}
 		}
 	}
 	return s
@@ -667,6 +679,14 @@ func (g *Gen) Top() *E {
 		return e
 	}
 	d := g.MaxDepth
+	if g.R.Chance(1, 5) {
+		// short, productive paths (the flat fragment): child / attribute / self
+		// steps with boolean and positional predicates over names the documents use
+		if g.R.Chance(1, 3) {
+			return &E{Op: "path", S: "//", Kids: g.flatInner(true).Kids}
+		}
+		return g.Flat()
+	}
 	switch g.R.Weighted([]int{8, 6, 3, 3}) {
 	case 0:
 		return g.NodeSet(d)
@@ -763,6 +783,9 @@ func (g *Gen) flatInner(preds bool) *E {
 			}
 			for k := r.Weighted([]int{6, 3, 1}); k > 0; k-- {
 				s.Kids = append(s.Kids, g.flatBoolPred())
+			}
+			if g.StackPos && s.S == "child" && len(s.Kids) > 0 && r.Chance(1, 3) {
+				s.Kids = append(s.Kids, g.flatPosPred()) // a positional predicate after boolean ones (outside the C12 fragment)
 			}
 		}
 		p.Kids = append(p.Kids, s)
